@@ -264,6 +264,9 @@ class ATP_Store:
                     self._update_state()
                     return True
 
+                # The converted NADH now counts towards what is available
+                balance = self.atp
+
             # Try to use debt
             if allow_debt and self._debt < self.max_debt:
                 deficit = cost - balance
